@@ -83,15 +83,13 @@ Definition byte_of_bits (bs : bits) : Z :=
   fold_left (fun acc (b : bool) => 2 * acc + Z.b2z b) bs 0.
 
 (* bits -> bytes, the last byte padded with zero bits (what bstream leaves there) *)
-Fixpoint pack_aux (fuel : nat) (bs : bits) : list Z :=
-  match fuel with
-  | O => []
-  | S f => match bs with
-           | [] => []
-           | _ => byte_of_bits (firstn 8 (bs ++ repeat false 7)) :: pack_aux f (skipn 8 bs)
-           end
+Fixpoint pack_bits (bs : bits) : list Z :=
+  match bs with
+  | b7 :: b6 :: b5 :: b4 :: b3 :: b2 :: b1 :: b0 :: r =>
+      byte_of_bits [b7; b6; b5; b4; b3; b2; b1; b0] :: pack_bits r
+  | [] => []
+  | _ => [byte_of_bits (firstn 8 (bs ++ repeat false 7))]
   end.
-Definition pack_bits (bs : bits) : list Z := pack_aux (length bs) bs.
 
 (* zero padding up to the next byte boundary: what "count = 0" on a reloaded chunk means *)
 Definition pad8 (bs : bits) : bits :=
@@ -101,47 +99,37 @@ Lemma put8_byte_of b7 b6 b5 b4 b3 b2 b1 b0 :
   put_bits 8 (byte_of_bits [b7;b6;b5;b4;b3;b2;b1;b0]) = [b7;b6;b5;b4;b3;b2;b1;b0].
 Proof. destruct b7, b6, b5, b4, b3, b2, b1, b0; reflexivity. Qed.
 
-Lemma unpack_pack_aux : forall fuel bs, (length bs <= fuel)%nat ->
-  exists pad, unpack_bytes (pack_aux fuel bs) = bs ++ pad /\ Forall (fun b => b = false) pad.
+Lemma unpack_pack_len : forall n bs, (length bs <= n)%nat ->
+  exists pad, unpack_bytes (pack_bits bs) = bs ++ pad /\ Forall (fun b => b = false) pad.
 Proof.
-  induction fuel as [|f IH]; intros bs Hl.
+  induction n as [|n IH]; intros bs Hl.
   - destruct bs; [|cbn in Hl; lia]. exists []. split; [reflexivity|constructor].
-  - cbn [pack_aux]. destruct bs as [|c0 bs]; [exists []; split; [reflexivity|constructor]|].
-    remember (c0 :: bs) as l eqn:El.
-    destruct (Nat.le_gt_cases 8 (length l)) as [Hge|Hlt].
-    + (* a full byte *)
-      assert (Hf : firstn 8 (l ++ repeat false 7) = firstn 8 l).
-      { rewrite firstn_app. replace (8 - length l)%nat with 0%nat by lia. cbn. apply app_nil_r. }
-      rewrite Hf. destruct (IH (skipn 8 l)) as [pad [Hp Hz]].
-      { rewrite skipn_length. lia. }
+  - destruct bs as [|b7 [|b6 [|b5 [|b4 [|b3 [|b2 [|b1 [|b0 r]]]]]]]].
+    + exists []. split; [reflexivity|constructor].
+    + exists (repeat false 7). split; [|repeat constructor].
+      cbn [pack_bits firstn app repeat unpack_bytes flat_map]. rewrite put8_byte_of. reflexivity.
+    + exists (repeat false 6). split; [|repeat constructor].
+      cbn [pack_bits firstn app repeat unpack_bytes flat_map]. rewrite put8_byte_of. reflexivity.
+    + exists (repeat false 5). split; [|repeat constructor].
+      cbn [pack_bits firstn app repeat unpack_bytes flat_map]. rewrite put8_byte_of. reflexivity.
+    + exists (repeat false 4). split; [|repeat constructor].
+      cbn [pack_bits firstn app repeat unpack_bytes flat_map]. rewrite put8_byte_of. reflexivity.
+    + exists (repeat false 3). split; [|repeat constructor].
+      cbn [pack_bits firstn app repeat unpack_bytes flat_map]. rewrite put8_byte_of. reflexivity.
+    + exists (repeat false 2). split; [|repeat constructor].
+      cbn [pack_bits firstn app repeat unpack_bytes flat_map]. rewrite put8_byte_of. reflexivity.
+    + exists (repeat false 1). split; [|repeat constructor].
+      cbn [pack_bits firstn app repeat unpack_bytes flat_map]. rewrite put8_byte_of. reflexivity.
+    + destruct (IH r) as [pad [Hp Hz]]; [cbn [length] in Hl; lia|].
       exists pad. split; [|exact Hz].
-      cbn [unpack_bytes flat_map]. fold (unpack_bytes (pack_aux f (skipn 8 l))). rewrite Hp.
-      rewrite <- (firstn_skipn 8 l) at 3. rewrite <- app_assoc. f_equal.
-      assert (H8 : length (firstn 8 l) = 8%nat) by (rewrite firstn_length; lia).
-      destruct (firstn 8 l) as [|b7 [|b6 [|b5 [|b4 [|b3 [|b2 [|b1 [|b0 [|]]]]]]]]]; cbn in H8; try lia.
-      apply put8_byte_of.
-    + (* the last, partial byte *)
-      assert (Hl1 : (1 <= length l)%nat) by (subst l; cbn [length]; lia).
-      assert (Hs : skipn 8 l = []) by (apply skipn_all2; lia).
-      rewrite Hs. assert (Hpa : pack_aux f [] = []) by (destruct f; reflexivity). rewrite Hpa.
-      cbn [unpack_bytes flat_map]. rewrite app_nil_r.
-      exists (repeat false (8 - length l)). split.
-      * assert (Hf : firstn 8 (l ++ repeat false 7) = l ++ repeat false (8 - length l)).
-        { rewrite firstn_app. rewrite firstn_all2 by lia. f_equal.
-          assert (forall a b, (a <= b)%nat -> firstn a (repeat false b) = repeat false a) as Hr.
-          { induction a; intros b Hab; [reflexivity|]. destruct b; [lia|]. cbn. f_equal. apply IHa. lia. }
-          apply Hr. lia. }
-        rewrite Hf.
-        assert (H8 : length (l ++ repeat false (8 - length l)) = 8%nat) by (rewrite app_length, repeat_length; lia).
-        destruct (l ++ repeat false (8 - length l)) as [|b7 [|b6 [|b5 [|b4 [|b3 [|b2 [|b1 [|b0 [|]]]]]]]]]; cbn in H8; try lia.
-        apply put8_byte_of.
-      * apply Forall_forall. intros x Hx. apply repeat_spec in Hx. exact Hx.
+      cbn [pack_bits unpack_bytes flat_map]. fold (unpack_bytes (pack_bits r)).
+      rewrite Hp, put8_byte_of. reflexivity.
 Qed.
 
 (* unpacking the packed bytes gives the bits back, followed by zero padding *)
 Lemma unpack_pack bs :
   exists pad, unpack_bytes (pack_bits bs) = bs ++ pad /\ Forall (fun b => b = false) pad.
-Proof. apply unpack_pack_aux. unfold pack_bits. lia. Qed.
+Proof. apply (unpack_pack_len (length bs)). lia. Qed.
 
 (* ---- leading / trailing zeros of a 64-bit pattern ---------------------------------- *)
 
